@@ -75,7 +75,7 @@ def fixesOf (j : Json) : Fixes :=
   let f (k : String) : Bool := match j.getObjVal? "fixes" with
     | .ok v => (v.getObjValAs? Bool k).toOption.getD false
     | .error _ => false
-  { d18 := f "d18", d41 := f "d41", d44 := f "d44", d45 := f "d45" }
+  { d18 := f "d18", d41 := f "d41", d44 := f "d44", d45 := f "d45", d52 := f "d52" }
 
 def handle (j : Json) : Except String Json := do
   let op ← jstr j "op"
